@@ -1,4 +1,4 @@
-import OrdModel.Proofs.RunestoneDecipher
+import OrdModel.Proofs.RunestoneEncipher
 /-!
 # C25 — Runestones round-trip and deciphering is total with the documented flaws
 
@@ -120,6 +120,21 @@ theorem c25_keeps (scripts : List (List UInt8)) (hn : scripts.length < 2 ^ 32)
   obtain ⟨es, he⟩ := decipherInts_ok scripts.length hn ints
   have := decipherInts_flaw scripts.length hn ints _ he
   exact ⟨_, by simp [decipher, hp, hi, he], this.2.1, this.2.2⟩
+
+/-- **Round trip, script layer.**  For every payload `p` the script `encipher` builds for it
+(`OP_RETURN OP_13` + one push per `chunks(u32::MAX)` chunk, never a panic) is, as the first
+matching output of any transaction, read back by the payload search as exactly `p`. -/
+theorem c25_roundtrip_script (p : List UInt8) (pre post : List (List UInt8))
+    (hpre : anyMagic pre = false) :
+    ∃ s, payloadScript p = .ok s ∧ payload (pre ++ s :: post) = some (.valid p) := by
+  obtain ⟨rest, hs, hc⟩ := payloadScript_roundtrip p
+  exact ⟨_, hs, by rw [payload_first pre rest post hpre, hc]⟩
+
+/-- **Round trip, varint layer.**  Any sequence of 128-bit integers, varint-encoded and
+concatenated, is split back into the same sequence. -/
+theorem c25_roundtrip_varints (xs : List Nat) (h : ∀ x ∈ xs, x < 2 ^ 128) :
+    integers (encodeInts xs) = .ok xs :=
+  integers_encodeInts xs h
 
 example : anyMagic [[0x6a, 0x5d, 0x00], []] = true := by decide
 example : anyMagic [[0x6a], [0x6a, 0x01, 0x5d], [0x00, 0x14]] = false := by decide
